@@ -7,32 +7,44 @@ from vlib import common as C
 
 ID = 'C11'
 READY = True
-LEVEL_TEXT = ('Partial (full for the algorithm in exact arithmetic; since round 3 the two former hypotheses on the matrix functions are THEOREMS for the '
-              'spectral functions V diag(f(lam)) V^T that TensorMath.symmetric_matrix_function builds, under the contract of the eigen-solver at the '
-              'matrices it is called on). Coq theorems over R about the kernels re-translated from the source on every run, for the single- and the '
+LEVEL_TEXT = ('Partial (full for the algorithm in exact arithmetic; since round 4 with NO hypothesis on the matrix functions: they are the spectral '
+              'functions V diag(f(lam)) V^T that TensorMath.symmetric_matrix_function builds, over an eigen-solver whose existence is now a theorem). '
+              'Coq theorems over R about the kernels re-translated from the source on every run, for the single- and the '
               'three-branch model: the reported dissipated energy equals G|dev E_trial|^2 (dt/tau)/(1+dt/tau)^2 and is non-negative for tau, dt > 0, '
               'G >= 0 and EVERY log_sqrt_symm; the state increment is trace-free, so det Fv_new = det Fv_old -- for every expm with '
-              'det(expm A) = exp(tr A), and now also with NO hypothesis on the exponential: det(exp_spec A) = exp(tr A) is proved from the solver '
-              'contract V^T V = V V^T = I, V diag(lam) V^T = A (C11_spectral_exponential_det, C11_isochoric_spectral*); the energy equals '
+              'det(expm A) = exp(tr A), and for the spectral exponential from the solver contract V^T V = V V^T = I, V diag(lam) V^T = A '
+              '(C11_spectral_exponential_det, C11_isochoric_spectral*); the energy equals '
               'W_eq + sum_i G_i |dev E_trial,i|^2/(1+dt/tau_i) for every state, which gives the explicit bounds |W - W_inst| <= c dt/tau and '
-              '|W - W_eq| <= c tau/dt and the two limits (epsilon statements); at held deformation every further step multiplies the stored '
-              'non-equilibrium energy of a branch by 1/(1+dt/tau)^2 in (0,1), so along ANY sequence of positive steps it is non-increasing, for the '
-              'single branch, for every branch of the three-branch model and for their sum, which is exactly energy - dissipation - equilibrium '
-              'energy (C11_relaxation_monotone*, C11_reported_energy*).  The coaxial update identity these relaxation theorems rest on, '
-              'Etrial(state_new) = Etrial(state) - delta_Ev, is proved (C11_coaxial_update*) for the spectral log_sqrt_symm / exponential from: F and Fv '
-              'invertible and the solver contract at Ce = Fe^T Fe, at the increment and at Ce after the update; the proof shows that a spectral matrix '
-              'function does not depend on which orthogonal decomposition the solver returns (C11_spectral_function_unique) and that the eigenvalues '
-              'of Fe^T Fe are positive; C11_relaxation_monotone_spectral* then hold with no hypothesis on the matrix functions beyond the solver contract '
-              'along the sequence. '
-              'NOT proved: that TensorMath.eigen_sym33_unit meets the contract (existence = the spectral theorem; accuracy of the routine is C12) and that '
-              'jax.scipy.linalg.expm (Pade, scaling and squaring) equals the spectral exponential: both are evaluated numerically on every run (stream '
-              '`spectral`: contract gap of the oracles, model vs implementation), and their consequences Hexp / Hcoax on every explored history. '
-              'Binary64 behaviour is covered only by the correspondence and by evaluating the conclusions on the real models (public interface only) over '
-              'dt/tau in [1e-6, 1e6], including large-rotation load steps followed by holds.')
+              '|W - W_eq| <= c tau/dt and the two limits as epsilon statements (round 4: also for the three-branch model; for a virgin material the '
+              'trial strain is lss(F^T F), the logarithmic strain of the deformation: C11_virgin_trial_strain*); at held deformation every further step '
+              'multiplies the stored non-equilibrium energy of a branch by 1/(1+dt/tau)^2 in (0,1), so along ANY sequence of positive steps it is '
+              'non-increasing, for the single branch, for every branch of the three-branch model and for their sum, which is exactly energy - dissipation '
+              '- equilibrium energy (C11_relaxation_monotone*, C11_reported_energy*).  The coaxial update identity these relaxation theorems rest on, '
+              'Etrial(state_new) = Etrial(state) - delta_Ev, is proved (C11_coaxial_update*) for the spectral log_sqrt_symm / exponential; a spectral matrix '
+              'function does not depend on which orthogonal decomposition the solver returns (C11_spectral_function_unique). '
+              'Round 4: (a) the spectral theorem for symmetric 3x3 matrices is proved from scratch, constructively up to the classical reals and without a '
+              'choice axiom (C11_eigen_solver_exists / C11_eigen_solver: IVT root of the characteristic cubic, kernel vector of A - lam I from cross products of '
+              'its rows including the rank-one case of repeated eigenvalues, Householder deflation, one Givens rotation), and two solvers that meet the contract '
+              'give the same function value (C11_spectral_function_solver_independent, C11_log_sqrt_canonical, C11_exponential_canonical); (b) every matrix the '
+              'solvers are called on in a step is symmetric, so the per-call premises follow from the contract on symmetric matrices (C11_*_all) and disappear '
+              'for lss_R / expm_R (C11_isochoric_unconditional, C11_relaxation_unconditional, C11_relaxation_unconditional_total: det F != 0, det Fv != 0, '
+              'moduli >= 0, tau, dt > 0 are the only premises); (c) arbitrary deformation-and-time-step histories [(H_1,dt_1);...]: det Fv is constant along '
+              'the whole history, = 1 from the virgin state, for every branch (C11_history_isochoric*, C11_virgin_history_isochoric*), every reported '
+              'dissipated energy is >= 0 and the accumulated dissipation is non-decreasing (C11_history_dissipation_nonneg*, '
+              'C11_accumulated_dissipation_monotone), and a hold after ANY history from the virgin state relaxes monotonically '
+              '(C11_relaxation_after_history, C11_relaxation_after_history_total). '
+              'NOT proved: that TensorMath.eigen_sym33_unit meets the contract in binary64 (accuracy of the routine is C12; it does NOT inside a compiled '
+              'batch on near-degenerate spectra: C12 finding EIGVMAP, whose consequence for this property is the open finding C11-F1: under jit(vmap) the '
+              'stored energy of a uniaxial state grows during a hold) and that jax.scipy.linalg.expm (Pade, scaling and squaring) equals the spectral '
+              'exponential (true only up to the Pade truncation error): both are evaluated numerically on every run (stream `spectral`: contract gap of '
+              'the oracles of two different solvers, model vs implementation, degenerate spectra included), and their consequences Hexp / Hcoax on every '
+              'explored history. Binary64 behaviour is covered only by the correspondence and by evaluating the conclusions on the real models (public '
+              'interface only) over dt/tau in [1e-6, 1e6], including large-rotation load steps followed by holds, degenerate-spectrum (uniaxial, '
+              'equibiaxial, volumetric) load-and-hold histories, and batches of two material points through jit(vmap) compared with the single call.')
 TECHNIQUE = 'Coq proof (Reals) over kernels regenerated from the Python AST, opaque spectral functions as parameters; vm_compute/PrimFloat correspondence'
 GEN = ['TensorMath', 'HyperViscoelastic', 'MultiBranchHyperViscoelastic', 'ViscoState']
-TARGETS = ['model/M_C11.vo', 'model/M_C11s.vo', 'proofs/L_C11a.vo', 'proofs/L_C11.vo', 'proofs/L_C11s.vo', 'proofs/L_C11t.vo']
-COQ_FILES = ['base/Num.v', 'model/M_C08.v', 'model/M_C11.v', 'model/M_C11s.v', 'proofs/L_C11a.v', 'proofs/L_C11.v', 'proofs/L_C11s.v', 'proofs/L_C11t.v', 'props/P_C11.v']
+TARGETS = ['model/M_C11.vo', 'model/M_C11s.vo', 'proofs/L_C11a.vo', 'proofs/L_C11.vo', 'proofs/L_C11s.vo', 'proofs/L_C11t.vo', 'proofs/L_C11e.vo', 'proofs/L_C11u.vo']
+COQ_FILES = ['base/Num.v', 'model/M_C08.v', 'model/M_C11.v', 'model/M_C11s.v', 'proofs/L_C11a.v', 'proofs/L_C11.v', 'proofs/L_C11s.v', 'proofs/L_C11t.v', 'proofs/L_C11e.v', 'proofs/L_C11u.v', 'props/P_C11.v']
 TRUSTED = ['Coq 8.16.1 kernel + vm_compute (no native_compute)',
            'tools/vlib/py2coq.py translator (Python ast -> Gallina over Num T), cross-checked by running the generated kernels at binary64 against the implementation',
            'hand composition of the generated per-branch kernels for the three-branch loops (model/M_C11.v, model/M_C08.v), tied by the same comparison',
@@ -48,11 +60,17 @@ ASSUMPTIONS = ['exact real arithmetic in theorems',
                'spectral theorems: the eigen-solver returns V, lam with V^T V = V V^T = I and V diag(lam) V^T = A at the matrices it is called on '
                '(eigh_ok; evaluated on the oracles of stream `spectral`); jax.scipy.linalg.expm equals the spectral exponential up to rounding (same stream); '
                'det F != 0, det Fv != 0 (det Fv is preserved by the update: C11_isochoric_spectral)',
+               'round-4 theorems *_all: the solver meets eigh_ok at every symmetric matrix (solver_ok) -- satisfiable: C11_eigen_solver_exists; theorems '
+               '*_unconditional and *_history* over lss_R / expm_R: no assumption on the matrix functions (the implementation is tied to lss_R / expm_R '
+               'numerically only: streams `spectral`, L2)',
                'moduli >= 0, relaxation times > 0, time steps > 0']
 RULE = ('cases: random positive moduli and relaxation times over four decades, deformations F = R U with stretches in [0.6, 1.7], dt/tau from 1e-6 to 1e6; '
         'L1: random (H, Fv, dt) with non-virgin states; spectral: random elastic trial deformations F Fv^-1 and viscous increments; '
         'L2 (public interface of the models only): large-rotation load paths (rigid rotation 50..180 degrees on a stretch, or simple shear gamma in (2, 4]) '
-        'followed by 3..8 holds, multi-step random deformation histories followed by held segments, and step-size sweeps on a virgin material.  Non-trivial = deformation with a deviatoric logarithmic strain above 1e-3; distinct = distinct (model, properties, history) tuples')
+        'followed by 3..8 holds, multi-step random deformation histories followed by held segments, and step-size sweeps on a virgin material; '
+        'round 4: every fifth spectral case and a separate L2 stream use DEGENERATE spectra (two or three equal principal stretches, aligned with the axes or '
+        'rotated, with or without a rigid rotation), the spectral model is additionally fed with the eigen-pairs of a second solver (numpy/LAPACK), and '
+        'batches of two material points (degenerate, every third batch generic) are run through jit(vmap) of the public interface and compared with the single call.  Non-trivial = deformation with a deviatoric logarithmic strain above 1e-3; distinct = distinct (model, properties, history) tuples')
 IMPORTS = ['From OV.gen Require Import Gen_TensorMath Gen_HyperViscoelastic Gen_MultiBranchHyperViscoelastic Gen_ViscoState.',
            'From OV.model Require Import M_C08 M_C11 M_C11s.']
 
@@ -239,9 +257,24 @@ def l1_spectral(ctx, model_ok):
     worst = 0.0
     for k in range(ctx.n(30, 300)):
         F = rand_F(r) @ np.linalg.inv(rand_F(r, 0.3)) if k % 3 else rand_F(r)      # an elastic trial deformation F Fv^-1
+        if k % 5 == 4:
+            # degenerate spectrum (round 4): two equal principal stretches (uniaxial / equibiaxial), in the coordinate frame or a rotated
+            # one, or a purely volumetric deformation -- where the eigenvectors are not unique and only the FUNCTION value is
+            # (C11_spectral_function_solver_independent); the rank-one branch of the kernel construction in proofs/L_C11e.v
+            a, c = math.exp(r.uniform(0.1, 0.5) * r.choice([-1, 1])), math.exp(r.uniform(-0.2, 0.2))
+            kind = r.choice(['aligned', 'rotated', 'volumetric'])
+            Rf = rand_rot(r) if kind == 'rotated' else np.eye(3)
+            F = Rf @ np.diag([a, c, c] if kind != 'volumetric' else [a, a, a]) @ Rf.T
+            if r.random() < 0.5:
+                F = rand_rot(r) @ F
+            ctx.count('spectral_degenerate_%s' % kind)
         Cmat = F.T @ F
         lam, V = (np.asarray(x) for x in f_eig(jnp.array(Cmat)))
         L = np.asarray(f_lss(jnp.array(Cmat)))
+        if not (np.isfinite(lam).all() and np.isfinite(V).all() and np.isfinite(L).all()):
+            ctx.fail('correspondence', 'TensorMath.eigen_sym33_unit / log_sqrt_symm return non-finite values for the symmetric positive definite matrix C = F^T F '
+                     '(eigenvalues %s)' % np.linalg.eigvalsh(Cmat).tolist(), case=dict(part='spectral', C=Cmat.tolist(), lam=lam.tolist(), V=V.tolist()))
+            continue
         g1 = contract_gap(Cmat, lam, V)
         fct = 10 ** r.uniform(-6, 0)
         dE = fct * dev3(0.5 * (L + L.T))                                          # a viscous increment: multiple of the deviator of the strain
@@ -257,6 +290,17 @@ def l1_spectral(ctx, model_ok):
         want.append(L.ravel().tolist() + X.ravel().tolist())
         info.append(dict(part='spectral', C=Cmat.tolist(), dE=dE.tolist(), scale=max(1.0, float(np.abs(L).max()))))
         ctx.count('evaluations', 2)
+        # solver independence (round 4, C11_spectral_function_solver_independent / C11_log_sqrt_canonical): the model fed with the
+        # eigen-pairs of a DIFFERENT solver (LAPACK through numpy) must give the same log_sqrt_symm as the implementation with its own
+        wC, VC = np.linalg.eigh(Cmat)
+        g3 = contract_gap(Cmat, wC, VC)
+        worst = max(worst, g3)
+        ctx.count('eigh_contract_evaluated')
+        exprs.append('fencs (%s (lss_spec %s %s))' % (MAT9, ceig(wC, VC), cm(Cmat)))
+        want.append(L.ravel().tolist())
+        info.append(dict(part='spectral-other-solver', C=Cmat.tolist(), scale=max(1.0, float(np.abs(L).max()))))
+        ctx.count('spectral_solver_independence_cases')
+        ctx.count('evaluations')
     ctx.cov['eigh_contract_worst_gap'] = worst
     res = C.coq_eval(IMPORTS, exprs, 'C11s', shard=100, timeout=900)
     mism = 0
@@ -599,10 +643,154 @@ def l2_rotation(ctx, r, count):
     return nbad, keys
 
 
+def degenerate_F(r):
+    """a deformation whose right stretch has a DEGENERATE spectrum: two equal principal stretches (uniaxial / equibiaxial: the same
+    family with a <> c) or three (volumetric), in the coordinate frame or a rotated one, optionally with a superposed rigid rotation.
+    Returns (F, kind)."""
+    import numpy as np
+    a, c = math.exp(r.uniform(0.1, 0.5) * r.choice([-1, 1])), math.exp(r.uniform(-0.2, 0.2))
+    kind = r.choice(['aligned', 'rotated', 'rotated', 'volumetric'])
+    Rf = rand_rot(r) if kind == 'rotated' else np.eye(3)
+    perm = r.sample(range(3), 3)
+    d = np.array([a, c, c] if kind != 'volumetric' else [a, a, a])[perm]
+    F = Rf @ np.diag(d) @ Rf.T
+    if r.random() < 0.4:
+        F = rand_rot(r) @ F
+        kind += '+rigid'
+    return F, kind
+
+
+def spectrum_gap(F):
+    """smallest relative gap between two eigenvalues of C = F^T F"""
+    import numpy as np
+    w = np.linalg.eigvalsh(np.asarray(F).T @ np.asarray(F))
+    return float(min(w[1] - w[0], w[2] - w[1]) / max(abs(w[2]), 1e-300))
+
+
+def l2_degenerate(ctx, r, count):
+    """round 4: load paths to a deformation with a degenerate spectrum (uniaxial, equibiaxial, volumetric) followed by holds, through
+    the single compiled call and all clauses of run_history -- the states where an eigen-decomposition is not unique and only the
+    matrix FUNCTION is (C11_spectral_function_solver_independent); no earlier stream produced them"""
+    keys = set()
+    for k in range(count):
+        nb = 1 if k % 2 == 0 else 3
+        props = rand_props(r, nb)
+        label = 'HyperViscoelastic' if nb == 1 else 'MultiBranchHyperViscoelastic'
+        taus = [props[3 + 2 * n] for n in range(nb)]
+        F, kind = degenerate_F(r)
+        tau = r.choice(taus)
+        steps = [(F, 10 ** r.uniform(-3, -0.5) * tau, False)]
+        if r.random() < 0.5:                                    # a second load step along the same degenerate family
+            steps.insert(0, (0.5 * (F + __import__('numpy').eye(3)), 10 ** r.uniform(-3, -0.5) * tau, False))
+        for _ in range(r.randrange(3, 7)):
+            steps.append((F, 10 ** r.uniform(-4, 1.0) * tau, True))
+        run_history(ctx, nb, props, steps, label)
+        ctx.count('degenerate_spectrum_histories')
+        ctx.count('degenerate_spectrum_%s' % kind)
+        keys.add((label, tuple(props)))
+    return keys
+
+
+# ----------------------------------------------------------------------------- L2b: the models inside a compiled batch
+_PUBV = {}
+BATCH_CLAUSES = ['dissipation', 'isochoric', 'relaxation', 'batched-vs-single']
+
+
+def pub_fn_batched(nb):
+    """jit(vmap(.)) of the public interface over a batch of (displacement gradient, state) pairs with a shared time step -- the way
+    FunctionSpace / Mechanics evaluate a material model over the quadrature points of a mesh"""
+    if nb in _PUBV:
+        return _PUBV[nb]
+    import jax
+
+    def f(H, state, dt, dt_inf, p):
+        m = make_model(nb, [p[i] for i in range(2 + 2 * nb)])
+        W = m.compute_energy_density(H, state, dt)
+        D = m.compute_material_qoi(H, state, dt)
+        new = m.compute_state_new(H, state, dt)
+        Weq = m.compute_energy_density(H, state, dt_inf) - m.compute_material_qoi(H, state, dt_inf)
+        return D, W, Weq, new
+    _PUBV[nb] = jax.jit(jax.vmap(f, (0, 0, None, None, None)))
+    return _PUBV[nb]
+
+
+def run_batched(ctx, nb, props, Fs, dts, label):
+    """the same history (load to Fs[i] in the first step, then holds) for a batch of material points through jit(vmap) AND through the
+    single compiled call.  Clauses on the batched results: dissipation >= 0, det Fv = 1, reported stored energy non-increasing on the
+    holds (C11_relaxation_monotone*), and batched == single (a batch must not change the value at a point)."""
+    import numpy as np
+    import jax.numpy as jnp
+    fb, f1 = pub_fn_batched(nb), pub_fn(nb)
+    pj = jnp.array(props)
+    Gs = [props[2 + 2 * n] for n in range(nb)]
+    taus = [props[3 + 2 * n] for n in range(nb)]
+    dt_inf = DT_INF_FACTOR * max(taus)
+    B = len(Fs)
+    H = jnp.array([np.asarray(F) - np.eye(3) for F in Fs])
+    st = jnp.array([initial_state(nb)] * B)
+    st1 = [jnp.array(initial_state(nb)) for _ in range(B)]
+    gaps = [spectrum_gap(F) for F in Fs]
+    case = dict(part='history-batched', model=label, props=list(props), Fs=[np.asarray(F).tolist() for F in Fs], dts=list(dts), eig_gaps=gaps)
+    found = []
+    prev = None
+    with np.errstate(all='ignore'):
+        for k, dt in enumerate(dts):
+            ctx.count('evaluations')
+            D, W, Weq, new = (np.asarray(x) for x in fb(H, st, dt, dt_inf, pj))
+            rep = W - D - Weq
+            ctol = 8e-15 * (np.abs(W) + np.abs(D) + np.abs(Weq)) + 1e-13 * sum(Gs)
+            for i in range(B):
+                D1, W1, Weq1, new1 = f1(H[i], st1[i], dt, dt_inf, pj)
+                st1[i] = new1
+                rep1 = float(W1) - float(D1) - float(Weq1)
+                cs = dict(case, step=k, point=i, eig_gap=gaps[i])
+                if not np.isfinite([D[i], W[i], Weq[i]]).all() or not (D[i] >= 0.0):
+                    found.append((0, '%s in a batch of %d: dissipated energy %r at step %d, point %d' % (label, B, float(D[i]), k, i), dict(cs, clause='dissipation')))
+                for n in range(nb):
+                    dd = float(np.linalg.det(new[i][9 * n:9 * n + 9].reshape(3, 3)))
+                    if not abs(dd - 1.0) <= 1e-9:
+                        found.append((1, '%s in a batch of %d: det Fv of branch %d = %r after step %d, point %d' % (label, B, n, dd, k, i), dict(cs, clause='isochoric')))
+                if prev is not None and rep[i] > prev[0][i] + 1e-7 * abs(prev[0][i]) + ctol[i] + prev[1][i]:
+                    found.append((2, '%s in a batch of %d (jit(vmap)): the stored non-equilibrium energy the model reports grew from %r to %r while the '
+                                  'deformation was held (step %d, dt/tau_max=%.3g, point %d, relative eigenvalue gap of F^T F %.2g); the single compiled call gives %r'
+                                  % (label, B, float(prev[0][i]), float(rep[i]), k, dt / max(taus), i, gaps[i], rep1), dict(cs, clause='relaxation')))
+                if abs(rep[i] - rep1) > 1e-8 * abs(rep1) + 4 * ctol[i] or float(np.abs(new[i] - np.asarray(new1)).max()) > 1e-8:
+                    found.append((3, '%s: step %d, point %d: inside a batch of %d the model reports stored energy %r / a state differing by %.3g from what the '
+                                  'single compiled call reports (%r) (relative eigenvalue gap of F^T F %.2g)'
+                                  % (label, k, i, B, float(rep[i]), float(np.abs(new[i] - np.asarray(new1)).max()), rep1, gaps[i]), dict(cs, clause='batched-vs-single')))
+                ctx.count('batched_points_checked')
+            prev = (rep, ctol)
+            st = jnp.array(new)
+    found.sort(key=lambda t: t[0])
+    for _, what, cs in found[:6]:
+        ctx.fail('conclusion', what, case=cs, concrete=True)
+    return len(found)
+
+
+def l2_batched(ctx, r, count):
+    """round 4: batches of two material points with degenerate spectra (plus, every third batch, generic ones) through jit(vmap)"""
+    nbad = 0
+    for k in range(count):
+        nb = 1 if k % 4 != 3 else 3
+        props = rand_props(r, nb)
+        label = 'HyperViscoelastic' if nb == 1 else 'MultiBranchHyperViscoelastic'
+        taus = [props[3 + 2 * n] for n in range(nb)]
+        generic = (k % 3 == 2)
+        Fs = [rand_F(r) if generic else degenerate_F(r)[0] for _ in range(2)]
+        tau = r.choice(taus)
+        dts = [10 ** r.uniform(-3, -0.5) * tau] + [10 ** r.uniform(-6, -2) * tau for _ in range(r.randrange(4, 9))]
+        nbad += run_batched(ctx, nb, props, Fs, dts, label)
+        ctx.count('batched_histories')
+        ctx.count('batched_histories_%s' % ('generic' if generic else 'degenerate'))
+    return nbad
+
+
 def l2(ctx):
     keys = set()
     _, ks = l2_rotation(ctx, ctx.rng('l2rot'), ctx.n(8, 80))
     keys |= ks
+    keys |= l2_degenerate(ctx, ctx.rng('l2deg'), ctx.n(6, 60))
+    l2_batched(ctx, ctx.rng('l2batch'), ctx.n(4, 40))
     r = ctx.rng('l2')
     for k in range(ctx.n(14, 150)):
         nb = 1 if k % 2 == 0 else 3
@@ -640,7 +828,8 @@ def search(ctx, reasons):
     c2.seed = ctx.seed + 1
 
     def best():
-        conc = [fl for fl in c2.failures if fl.get('concrete')]
+        # failures that carry the signature of the open finding C11-F1 are not what a search is after
+        conc = [fl for fl in c2.failures if fl.get('concrete') and not matches_finding(fl, {'id': 'C11-F1'})]
         for cl in CLAUSE_PRIORITY:
             for fl in conc:
                 if (fl.get('case') or {}).get('clause') == cl:
@@ -653,11 +842,29 @@ def search(ctx, reasons):
 
 
 def finding_fails(ctx, f):
-    return False
+    """replay the witness of a known finding on the implementation (C11-F1: a batched history)"""
+    import copy
+    import optimism  # noqa: F401
+    import numpy as np
+    w = f.get('witness') or {}
+    if f.get('id') != 'C11-F1' or not w:
+        return False
+    c2 = copy.copy(ctx)
+    c2.failures, c2.counts, c2.cov, c2.samples, c2.notes = [], {}, {}, [], []
+    nb = 1 if w['model'] == 'HyperViscoelastic' else 3
+    run_batched(c2, nb, w['props'], [np.array(F) for F in w['Fs']], w['dts'], w['model'])
+    return any(matches_finding(fl, f) and (fl.get('case') or {}).get('clause') == 'relaxation' for fl in c2.failures)
 
 
 def matches_finding(fl, f):
-    return False
+    """narrow signature of C11-F1: only the batched stream, only the relaxation clause or the batched-vs-single comparison, only at a point
+    whose F^T F has two (nearly) equal eigenvalues -- a negative dissipation, a determinant drift, or any failure at a generic point
+    inside a batch is NOT this finding"""
+    if f.get('id') != 'C11-F1':
+        return False
+    case = fl.get('case') or {}
+    return (fl.get('kind') == 'conclusion' and case.get('part') == 'history-batched' and case.get('clause') in ('relaxation', 'batched-vs-single')
+            and case.get('eig_gap') is not None and case['eig_gap'] <= 1e-6)
 
 
 def replay(ctx, path):
@@ -667,6 +874,13 @@ def replay(ctx, path):
     case = rep.get('failing_input')
     print('replay of', path)
     print(json.dumps(rep.get('reasons'), indent=1)[:3000])
+    if case and case.get('part') == 'history-batched':
+        ctx.failures = []
+        nb = 1 if case['model'] == 'HyperViscoelastic' else 3
+        run_batched(ctx, nb, case['props'], [np.array(F) for F in case['Fs']], case['dts'], case['model'])
+        bad = [fl['what'] for fl in ctx.failures if fl.get('concrete')]
+        print('implementation now:', bad[:5] or 'conclusions hold')
+        return 1 if bad else 0
     if not case or case.get('part') not in ('history', 'limits'):
         print('no concrete failing input recorded; broken obligations:', rep.get('broken'))
         return 1
